@@ -59,6 +59,7 @@ Conf1(g0, e) ==
         IF e.k = "Unlock" /\ e.o = "S" /\ g.S = Owner(x) THEN [ok |-> FALSE, g |-> g, why |-> <<"code released S, the model still holds it", e.t>>]
         ELSE IF e.k = "Unlock" /\ e.o = "K" /\ g.K = Owner(x) THEN [ok |-> FALSE, g |-> g, why |-> <<"code released K, the model still holds it", e.t>>]
         ELSE [ok |-> TRUE, g |-> g, why |-> <<>>]
+    ELSE IF Top(g, x) = "LN" /\ e.k = "Lock" /\ e.o = "S" THEN [ok |-> TRUE, g |-> CHOOSE y \in StepOf(g, x) : TRUE, why |-> <<>>]     \* the state lock of a bar the thread made itself
     ELSE IF Top(g, x) # TokOf(e) THEN [ok |-> FALSE, g |-> g, why |-> <<"model expects", Top(g, x), "code did", e.k, e.o, "thread", e.t, "in", e.call>>]
     ELSE LET succ == IF e.k = "CvWake" THEN WaitWake(g, x) ELSE IF e.k = "CvTimeout" THEN WaitTimeout(g, x) ELSE StepOf(g, x) IN
          IF succ = {} THEN [ok |-> FALSE, g |-> g, why |-> <<"not enabled in the model", e.k, e.o, "thread", e.t>>]
